@@ -179,7 +179,7 @@ func (w *World) Enabled() []Event {
 				out = w.appendCrashEvents(n, out)
 			}
 		}
-		if len(n.ApplyQ) > 0 {
+		if len(n.ApplyQ) > 0 && !n.ApplyPaused {
 			out = append(out, Event{Kind: EvApply, Node: id})
 		}
 	}
@@ -254,6 +254,16 @@ func (w *World) Enabled() []Event {
 			out = append(out, Event{Kind: EvDup, Arg: uint16(k)})
 		}
 	}
+	if w.Budget[BDelay] > 0 {
+		for _, n := range w.Nodes {
+			for k := range w.Net {
+				if w.Net[k].M.GetTo() == n.ID && !w.Net[k].Delayed {
+					out = append(out, Event{Kind: EvDelay, Node: uint8(n.ID)})
+					break
+				}
+			}
+		}
+	}
 	for _, n := range w.Nodes {
 		if w.mayCrash(n) && w.stageAllowed(StageNone) {
 			for _, f := range w.crashFlagSets(n, w.unsyncedNow(n)) {
@@ -266,14 +276,16 @@ func (w *World) Enabled() []Event {
 
 // Quiescent reports whether nothing but budgeted environment operations is enabled.
 func (w *World) Quiescent() bool {
-	if len(w.Net) > 0 {
-		return false
+	for k := range w.Net {
+		if !w.Net[k].Delayed || w.PC >= len(w.Sc.Script) {
+			return false
+		}
 	}
 	for _, n := range w.Nodes {
 		if n.Stopped {
 			continue
 		}
-		if n.Pending != nil || len(n.AppendQ) > 0 || len(n.ApplyQ) > 0 || len(n.LocalQ) > 0 || w.hasReady(n) {
+		if n.Pending != nil || len(n.AppendQ) > 0 || (len(n.ApplyQ) > 0 && !n.ApplyPaused) || len(n.LocalQ) > 0 || w.hasReady(n) {
 			return false
 		}
 	}
@@ -301,6 +313,9 @@ func (w *World) nodeFingerprint(n *Node) []byte {
 		b = append(b, 1)
 	} else {
 		b = append(b, 0)
+	}
+	if n.ApplyPaused {
+		b = append(b, 2)
 	}
 	for _, q := range [][]*pb.Message{n.AppendQ, n.ApplyQ, n.LocalQ} {
 		b = binary.AppendUvarint(b, uint64(len(q)))
@@ -344,11 +359,17 @@ func (w *World) Key(ordered bool) [16]byte {
 		for _, i := range idx {
 			b = binary.AppendUvarint(b, uint64(len(w.Net[i].Enc)))
 			b = append(b, w.Net[i].Enc...)
+			if w.Net[i].Delayed {
+				b = append(b, 0xd1)
+			}
 		}
 	} else {
 		for i := range w.Net {
 			b = binary.AppendUvarint(b, uint64(len(w.Net[i].Enc)))
 			b = append(b, w.Net[i].Enc...)
+			if w.Net[i].Delayed {
+				b = append(b, 0xd1)
+			}
 		}
 	}
 	b = append(b, 0xfb)
